@@ -923,10 +923,11 @@ def compile_comprehension(compiler, expr, root, parts, final):
                 nonlocal elt, ends_with_unpack, any_async
                 if not parts:
                     if is_for:
-                        if body:
-                            bd = compiler._compile_branch(body)
-                            return bd + bd.expr_as_stmt()
-                        return Result(stmts=[asty.Pass(expr)])
+                        bd = compiler._compile_branch(body)
+                        bd += bd.expr_as_stmt()
+                        # The body may compile to no statements at all,
+                        # as in `(for [x xs] (do))`.
+                        return bd if bd.stmts else Result(stmts=[asty.Pass(expr)])
                     if ends_with_unpack:
                         ends_with_unpack = False
                         to_loop = Result(expr =
@@ -1074,7 +1075,7 @@ def compile_comprehension(compiler, expr, root, parts, final):
                 generators.append(
                     ast.comprehension(
                         target=v[0],
-                        iter=v[1].expr,
+                        iter=v[1].force_expr,
                         ifs=[],
                         is_async=int(tagname == "afor"),
                     )
@@ -1083,13 +1084,15 @@ def compile_comprehension(compiler, expr, root, parts, final):
                 generators.append(
                     ast.comprehension(
                         target=v[0],
-                        iter=asty.Tuple(v[1], elts=[v[1].expr], ctx=ast.Load()),
+                        iter=asty.Tuple(
+                            v[1].force_expr, elts=[v[1].force_expr], ctx=ast.Load()
+                        ),
                         ifs=[],
                         is_async=0,
                     )
                 )
             elif tagname == "if":
-                generators[-1].ifs.append(v.expr)
+                generators[-1].ifs.append(v.force_expr)
             else:
                 raise ValueError("can't happen")
         # Use `force_expr` so that a form with no expression of its
